@@ -31,8 +31,9 @@ CHECKS = {}
 def add(pid, category, text, design_ref, note, technique):
     CHECKS[pid] = dict(category=category, text=text, design_ref=design_ref, note=note, technique=technique)
 
-BYTES_TECH = ("TLA+ L-models GenericMemchr/Swar checked by TLC against the Bytes oracles; every TLC behaviour replayed into the "
-              "real code (scaled generic instantiation + all backends + forced dispatch), load sequence conformance")
+BYTES_TECH = ("TLA+ L-models GenericMemchr/Swar (+ VecOps mask lemmas, ArchMemchr routing) checked by TLC against the Bytes oracles; every TLC "
+              "behaviour replayed into the real code (scaled generic instantiation, all backends, forced dispatch, simd128 copy, NEON under Miri) with "
+              "load-sequence conformance; recorded executions validated by TLC (Trace_Lib); TLAPS proofs of the unbounded scan as supplement")
 add("C01", "model_checking",
     "TLC exhausts the L-models of the generic vector search (VB=2,4,8 whole loop structure; VB=16,32 slices) and of the SWAR fallback "
     "(WB=2,4,8) over every length x start alignment x match placement within the listed bounds with invariants result=FirstMatch, "
@@ -49,8 +50,9 @@ add("C07", "model_checking",
     "DESIGN.md 4 C07", TRUST, BYTES_TECH)
 
 SUB_TECH = ("TLA+ loop-level models of the substring searchers (Two-Way incl. adaptive prefilter, packed pair, Rabin-Karp, Shift-Or, meta-searcher routing, "
-            "iterators) checked by TLC against the Bytes oracles over all needles x haystacks within bounds; oracle vectors replayed 1:1 and lifted "
-            "(block substitution + padding, lemma checked by TLC) on the real API under each forced dispatch level")
+            "iterators) checked by TLC against the Bytes oracles over all needles x haystacks within bounds; oracle vectors (incl. near-miss and foreign-byte "
+            "families) replayed 1:1 and lifted (block substitution + padding, lemma checked by TLC) on the real API under each forced dispatch level; "
+            "recorded executions at real constants validated by TLC (Trace_Lib / Trace_Objects); Two-Way preprocessing and step counts conform exactly")
 add("C03", "model_checking",
     "MC_Memmem: for every needle (0..5/6 symbols) x haystack x CPU-feature outcome x prefilter setting x ranker, the composed loop-level model (routing, Rabin-Karp below the "
     "thresholds, packed pair with its length guard, Two-Way small/large period with the prefilter state threaded through) returns FindSub; MC_SubOracle emits every (needle, haystack) "
@@ -81,8 +83,10 @@ add("C12", "model_checking", "MC_TwoWay/MC_SubBlocks1/MC_PackedPair step the bui
     "DESIGN.md 4 C12", TRUST, SUB_TECH)
 add("C13", "model_checking", "Linear-work invariants on the cost-annotated L-models (exhaustive on bounded domains) + Trace_Cost validation of the hooks' deterministic step counters on adversarial "
     "families up to 2^18 (thorough 2^22) bytes. An asymptotic claim is decided only up to explored sizes/families.", "DESIGN.md 4 C13, 8", TRUST + "; counters from cfg(memchr_verif) hooks", "cost-annotated TLA+ models + TLC trace validation of recorded step counters")
-add("C14", "model_checking", "bad/panic flags of all L-models are invariants; all vector families executed with debug assertions and overflow checks under catch_unwind; packed-pair panic exactly below min_haystack_len.",
-    "DESIGN.md 4 C14", TRUST, "TLA+ NoPanic invariants + replay in checked builds")
+add("C14", "model_checking", "bad/panic flags of all L-models are invariants; all vector families executed with debug assertions and overflow checks under catch_unwind; packed-pair panic exactly below "
+    "min_haystack_len; MC_PrefilterState explores every is_effective/update sequence at a scaled counter width (NoOverflow) and the real-width witness (> 2^29 prefilter calls on a 5.4 GB "
+    "haystack) of the genuine defect found with this machinery (u32 multiplication overflow, repaired by /repo commit df0e36e, see known_findings.json) is re-run on every check.",
+    "DESIGN.md 4 C14, 11.3a", TRUST + "; the 5.4 GB witness needs >= 12 GB of free memory (otherwise listed as skipped)", "TLA+ NoPanic/NoOverflow invariants + replay in checked builds + real-width overflow witness")
 add("C15", "model_checking", "Ifunc: every interleaving of 3 threads x 2 calls with Relaxed semantics (modification order + views), all CPU outcomes, liveness under WF; native racing first calls in fresh processes "
     "and shared finders validated by TLC (Trace_Lib); dispatcher events checked against the per-thread projection.", "DESIGN.md 4 C15", TRUST + "; real schedules sampled", "TLA+ action spec with relaxed-memory views + trace validation of racing executions")
 add("C16", "model_checking", "MC_MemmemObjects: every order of find/next/clone/clone_next/into_owned/drop_buffer up to Depth; history independence and clone/owned futures; replayed on real objects with the "
